@@ -198,7 +198,8 @@ def check_bonds(cg, fine, templates, legacy, all_atom, dedicated, what=''):
         if fa & fb and 'bonding' not in d:
             continue            # bond inside one fragment copy
         if all_atom:
-            expect(fine.nodes[a].get('element') != 'H' and fine.nodes[b].get('element') != 'H',
+            # (an explicitly written hydrogen - it maps to a template atom - may carry a descriptor of its own)
+            expect(all(fine.nodes[x].get('element') != 'H' or fine.nodes[x].get('mapping') for x in (a, b)),
                    'bonds:hydrogen-across-fragments', lambda: '%sbond %r-%r joins a hydrogen to another fragment' % (what, a, b))
         expect('bonding' in d, 'bonds:no-descriptor-pair',
                lambda: '%sbond %r-%r between coarse nodes %r and %r carries no bonding pair' % (what, a, b, sorted(fa), sorted(fb)))
